@@ -9,7 +9,7 @@ W=/tmp/cobweb-cov
 T=$(ls -d ~/.rustup/toolchains/nightly-x86_64-unknown-linux-gnu/lib/rustlib/x86_64-unknown-linux-gnu/bin)
 rm -rf $W; mkdir -p $W/sc $W/prof
 cp /repo/Cargo.lock /verif/harness/Cargo.lock 2>/dev/null || true
-( cd /verif/harness && CARGO_NET_OFFLINE=true CARGO_TARGET_DIR=$W/target RUSTFLAGS="-C instrument-coverage" cargo +nightly build --offline 2>&1 | tail -1 )
+( cd /verif/harness && LLVM_PROFILE_FILE=$W/build-%p-%m.profraw CARGO_NET_OFFLINE=true CARGO_TARGET_DIR=$W/target RUSTFLAGS="-C instrument-coverage" cargo +nightly build --offline 2>&1 | tail -1 )
 ( cd /verif/tools && python3 - $N <<'PY'
 import gen, props, sys
 n = int(sys.argv[1]); profs = sorted({p for mix in props.PROFILES.values() for p, _ in mix})
